@@ -233,6 +233,9 @@ func runC04Sign(c c04Sign, rec *evid.Rec) (bitFailed int, err error) {
 	if cerr, perr := check(d, key); perr != nil || cerr != nil {
 		return -1, fmt.Errorf("re-decoded signed message does not verify under its own key: %v %v", cerr, perr)
 	}
+	if cerr := d.Check(stun.MessageIntegrity(key)); cerr != nil {
+		return -1, fmt.Errorf("Message.Check(integrity) fails on a signed message: %v", cerr)
+	}
 	// other key: iff reference verdict
 	other := unHex(c.OtherKey)
 	cerr, perr := check(d, other)
